@@ -431,13 +431,23 @@ class ISD(model.Document):
   ) -> typing.Optional[model.ContentElement]:
     # pylint: disable=too-many-arguments,too-many-locals,too-many-branches
 
+    # the children of ruby containers are emptied instead of being pruned, so that the container retains
+    # a valid structure and its other children are presented, e.g. when the annotation is not active
+
+    is_ruby_part = isinstance(element, (model.Rb, model.Rbc, model.Rt, model.Rtc, model.Rp))
+
+    is_presented = True
+
     # first check the activity cache and return immediate if the element is not active
 
     is_active = activity_cache.get(element)
 
     if is_active is False:
 
-      return None
+      if not is_ruby_part:
+        return None
+
+      is_presented = False
 
     # compute the temporal extent of the element, hopefully from the cache
 
@@ -463,9 +473,15 @@ class ISD(model.Document):
         (end_time is not None and end_time <= absolute_offset)
       ) :
         activity_cache[element] = False
-        return None
 
-      activity_cache[element] = True
+        if not is_ruby_part:
+          return None
+
+        is_presented = False
+
+      else:
+
+        activity_cache[element] = True
 
     # associated region is that associated with the element, or inherited otherwise
 
@@ -480,7 +496,11 @@ class ISD(model.Document):
         associated_region is not selected_region and
         (not element.has_children() or associated_region is not None)
       ):
-      return None
+
+      if not is_ruby_part:
+        return None
+
+      is_presented = False
 
     # create an ISD element
 
@@ -592,7 +612,12 @@ class ISD(model.Document):
     # prune element is display is "none"
 
     if isd_element.get_style(styles.StyleProperties.Display) is styles.DisplayType.none:
-      return None
+
+      if not is_ruby_part:
+        return None
+
+      is_presented = False
+      isd_element.set_style(styles.StyleProperties.Display, styles.DisplayType.auto)
 
     # process children of the element
 
@@ -617,7 +642,7 @@ class ISD(model.Document):
         if isd_body_element is not None:
           isd_element_children.append(isd_body_element)
 
-    else:
+    elif is_presented:
 
       for child_element in element:
         isd_element_child = ISD._process_element(
@@ -636,6 +661,9 @@ class ISD(model.Document):
         if isd_element_child is not None:
           isd_element_children.append(isd_element_child)
 
+      if isinstance(element, model.Ruby) and not any(c.has_children() for c in isd_element_children):
+        return None
+
     if len(isd_element_children) > 0:
       isd_element.push_children(isd_element_children)
 
@@ -653,7 +681,7 @@ class ISD(model.Document):
     
     # prune or keep the element
 
-    if isinstance(isd_element, (model.Br, model.Text,model.Rb, model.Rbc)):
+    if isinstance(isd_element, (model.Br, model.Text)) or is_ruby_part:
       return isd_element
 
     if isd_element.has_children():
